@@ -759,7 +759,19 @@ def run_c08(ctx, rng, job):
                     for v_ in w.allvals:
                         del v_.calls[:]
                     # the entry point under test first, the reference (lookup) afterwards
-                    got = reg.queryAdapter(obs[0], lprov, n, D) if ep == 'queryAdapter' else reg.adapter_hook(lprov, obs[0], n, D)
+                    form = rng.randrange(4)
+                    ctx.count('adapter_call_forms[%d]' % form)
+                    if form == 0:
+                        got = reg.queryAdapter(obs[0], lprov, n, D) if ep == 'queryAdapter' else reg.adapter_hook(lprov, obs[0], n, D)
+                    elif form == 1:     # everything by keyword, in the other entry point's order
+                        got = reg.queryAdapter(provided=lprov, object=obs[0], name=n, default=D) if ep == 'queryAdapter' \
+                            else reg.adapter_hook(object=obs[0], provided=lprov, default=D, name=n)
+                    elif form == 2:     # everything by keyword, in the documented order
+                        got = reg.queryAdapter(object=obs[0], provided=lprov, name=n, default=D) if ep == 'queryAdapter' \
+                            else reg.adapter_hook(provided=lprov, object=obs[0], name=n, default=D)
+                    else:               # first positional, the rest by keyword
+                        got = reg.queryAdapter(obs[0], provided=lprov, default=D, name=n) if ep == 'queryAdapter' \
+                            else reg.adapter_hook(lprov, object=obs[0], default=D, name=n)
                     f = reg.lookup(lreq, lprov, n)
                     ctx.ev()
                     if f is None:
@@ -806,8 +818,8 @@ def run_c08(ctx, rng, job):
                     ctx.ev()
                     if any(v_.calls and not any(v_ is x for x in subs) for v_ in w.allvals):
                         ctx.violation('subscribers-called-something-else', dict(where, handlers=sp is None))
-                    called_ok = all(len(s.calls) == subs.count(s) * 1 or len(s.calls) == sum(1 for x in subs if x is s) for s in subs) and \
-                        all(all(a is b for a, b in zip(c, obs)) for s in subs for c in s.calls)
+                    called_ok = all(len(s.calls) == sum(1 for x in subs if x is s) for s in subs) and \
+                        all(len(c) == len(obs) and all(a is b for a, b in zip(c, obs)) for s in subs for c in s.calls)
                     if sp is None:
                         ok = called_ok and (got == () or got == [] or got is None)
                     else:
